@@ -3,9 +3,12 @@
 From Coq Require Import Extraction ExtrOcamlBasic.
 From GoShGen Require Import Extracted.
 From GoSh Require Import Base.Bytes Base.Outcome Store.Env Store.EnvSpec.
+From GoSh Require Import Pattern.Regex Pattern.PCompile Pattern.Match Pattern.PSpec.
 Extraction Language OCaml.
 Extraction "model.ml"
   Bytes.decode_rune Bytes.encode_rune Bytes.itoa
   Z.add Z.mul Z.opp Z.of_N
   Extracted.IFS
-  Env.run Env.option_string Env.get EnvSpec.arun EnvSpec.absS.
+  Env.run Env.option_string Env.get EnvSpec.arun EnvSpec.absS
+  PCompile.compile_model PCompile.regex_text PCompile.syms_of Match.match_model Match.raw Match.full_match
+  PSpec.spec_prefix PSpec.spec_suffix PSpec.pmb_any.
